@@ -473,6 +473,7 @@ def sweep_records(c: Check, rule: str, prefixes, floor: int = 1, strict: bool = 
                              'property %s returns self.%s, which the constructor sets from parameter %s (expected %r)' % (
                                  pn, r.attr, sorted(stored[r.attr]), pn), f.loc())
     c.floor(rule, 'record properties judged in %s' % (', '.join(prefixes)), judged, floor)
+    sweep_cross_wiring(c, rule, prefixes, floor=0)
     return judged
 
 
@@ -536,6 +537,14 @@ def check_application_purity(c: Check, rule: str, base_paths, floor: int) -> int
 
 # ------------------------------------------------------------------ PLUMB sweep: constructor arguments in their roles
 
+# constructions that swap two same-named arguments on purpose (read and confirmed)
+CROSS_WIRING_BY_DEFINITION = {
+    ('exactly_lib.util.interval.w_inversion.intervals:WithCustomInversion',
+     'exactly_lib.util.interval.w_inversion.intervals:WithCustomInversion.inversion'):
+        'the inversion of (interval, its inversion) is (its inversion, the interval): the swap is the definition',
+}
+
+
 def sweep_cross_wiring(c: Check, rule: str, prefixes, floor: int) -> int:
     """At every construction `K(a1, .., an)` inside the given packages: when the expression given for parameter p
     names (as a variable, or as an attribute `x._q` / `x.q`) another parameter q of the same constructor, and does
@@ -578,8 +587,12 @@ def sweep_cross_wiring(c: Check, rule: str, prefixes, floor: int) -> int:
                 if p in ms or not ms:
                     continue
                 for q in sorted(ms):
-                    if q in mention and q not in mention[q] and p in mention[q]:
+                    if q in mention and q not in mention[q] and p in mention[q] and p < q:
                         judged += 1
+                        if (k.key, f.key if f else name) in CROSS_WIRING_BY_DEFINITION:
+                            c.ok(rule, 'cross-wired-by-definition/%s(%s<->%s)' % (k.key, p, q),
+                                 detail=CROSS_WIRING_BY_DEFINITION[(k.key, f.key if f else name)])
+                            continue
                         c.bad(rule, 'cross-wired/%s(%s<->%s)@%s' % (k.key, p, q, f.key if f else name),
                               '%s is constructed with %s for its parameter %s and %s for its parameter %s: the two '
                               'are given in each other\'s place' % (k.name, unparse(b[p])[:50], p, unparse(b[q])[:50], q),
